@@ -54,5 +54,9 @@ ReaderSym == Permutations(Readers)
 
 \* vacuity guards: these are expected to be VIOLATED (used once while developing, and by the teeth demonstration)
 NeverIndexedPath == \A h \in Known : \A t \in DOMAIN txinfo : ~(OnChain(h, t) /\ ~UsesRecentPath(h, t) /\ txinfo[t].ref <= Num(h))
+NeverReaderAboveBest == \A r \in DOMAIN rd : Num(rd[r].pos) <= Num(best)
+NeverReaderOnSiblingBelowBest == \A r \in DOMAIN rd : ~(Num(rd[r].pos) + 1 = Num(best) /\ blocks[best].parent # rd[r].pos)
+NeverReaderOnDescendantOfBest == \A r \in DOMAIN rd : rd[r].pos = best \/ best \notin ChainSet(rd[r].pos)
+NeverSideBranchTwoDeep == \A b \in Known : Num(b) > 0 => ~(blocks[b].conflicts >= 1 /\ blocks[blocks[b].parent].conflicts >= 1)
 NeverObsolete == \A r \in DOMAIN rd : \A i \in DOMAIN ReadStep(rd[r].pos, best)[1] : ~ReadStep(rd[r].pos, best)[1][i].obs
 =============================================================================
